@@ -381,3 +381,75 @@ func writersNotCapEqLen(p *core.Prog, fv *types.Var) []string {
 	}
 	return bad
 }
+
+// RuleKNameAnchored — an account name is hierarchical: code that derives one
+// account's name from another's edits it at a segment boundary (TrimPrefix /
+// HasPrefix on the type root, slicing and joining the segments). An
+// unanchored substring replacement (strings.Replace, ReplaceAll, a Replacer,
+// regexp replacement) applied to Account.name or to its segments also rewrites
+// a later segment that happens to contain the same word, so the derived
+// account is not the mirror of the original (remap then moves amounts to a
+// row nobody asked for, or merges two accounts).
+func RuleKNameAnchored(c *core.Ctx) {
+	const rule = "K-name-anchored"
+	p := c.P
+	nameF := p.Field(pkgAccount, "Account", "name")
+	segF := p.Field(pkgAccount, "Account", "segments")
+	if nameF == nil || segF == nil {
+		c.Anchor(rule, "account.Account.name / segments")
+		return
+	}
+	unanchored := map[string]bool{"strings.Replace": true, "strings.ReplaceAll": true, "strings.NewReplacer": true, "(*strings.Replacer).Replace": true,
+		"(*regexp.Regexp).ReplaceAllString": true, "(*regexp.Regexp).ReplaceAllLiteralString": true, "(*regexp.Regexp).ReplaceAllStringFunc": true, "strings.Map": true}
+	n, derived := 0, 0
+	for _, fn := range p.SrcFuncs() {
+		if !p.InModule(fn) {
+			continue
+		}
+		core.EachInstr(fn, func(ins ssa.Instruction) {
+			call, ok := ins.(*ssa.Call)
+			if !ok {
+				return
+			}
+			callee := call.Call.StaticCallee()
+			if callee == nil || callee.Pkg == nil {
+				return
+			}
+			pkg := callee.Pkg.Pkg.Path()
+			if pkg != "strings" && pkg != "regexp" {
+				return
+			}
+			fromName := false
+			for _, a := range call.Call.Args {
+				for v := range originSet(p, a, 1) {
+					switch x := v.(type) {
+					case *ssa.FieldAddr:
+						if f := core.FieldOf(x); f == nameF || f == segF {
+							fromName = true
+						}
+					case *ssa.Call:
+						if cl := x.Call.StaticCallee(); cl != nil && core.PkgPathOf(cl) == pkgAccount && (cl.Name() == "Name" || cl.Name() == "Segments") {
+							fromName = true
+						}
+					}
+				}
+			}
+			if !fromName {
+				return
+			}
+			derived++
+			full := core.FuncName(callee)
+			if !unanchored[full] {
+				return
+			}
+			n++
+			c.Ob(rule, core.FuncName(fn)+":"+full+" on an account name", call.Pos(), core.FuncName(fn), core.Violated, full+" rewrites every occurrence of the pattern in the account's name, not only the segment it is meant for: a later segment containing the same text is changed too")
+		})
+	}
+	if derived == 0 {
+		c.Anchor(rule, "string operations on account names (none found)")
+		return
+	}
+	c.Ob(rule, "module:no unanchored replacement on account names", 0, "", core.Discharged, fmt.Sprintf("%d strings/regexp calls take an account name or its segments; none is an unanchored replacement", derived))
+	c.Floor(rule, 1)
+}
